@@ -108,6 +108,9 @@ def histories(draw, kind):
     elif tpl == 1:  # two condition sets with the same counts on other dofs, solved one after the other
         sd = draw(st.integers(0, 32)) * 3
         ops = [dict(op="bc", seed=sd), dict(op="solve"), dict(op="bc", seed=sd + 1), dict(op="solve")] + ops
+    elif tpl == 2 and kind != "thermal":  # a static iteration, then dynamic steps, then back to the static iteration
+        ops = [dict(op="solve"), dict(op="save"), dict(op="algo", name=draw(st.sampled_from(["newmark", "midpoint", "hht"])), dt=0.1),
+               dict(op="solve"), dict(op="solve"), dict(op="set_iter", i=0), dict(op="solve")] + ops
     case = dict(kind=kind, recipe=_recipe(draw), ops=ops, bc0=draw(st.integers(0, 99)))
     if kind != "thermal":
         case["law"] = dict(cls="iso", dim=2, planeStress=draw(st.booleans()), thickness=1.0, angles=[0.0],
@@ -335,6 +338,16 @@ def run_history(case, rec):
                 exp = [u, v, 0 * a]
             if got[0].shape == exp[0].shape:
                 rec.close(got[0] - exp[0], np.abs(u).max() + 1e-9, 1e-13, "set_iter_state", f"Set_Iter({i}) did not restore u", **sig)
+                HYP = ("newmark", "midpoint", "hht")
+                if base_kind != "thermal" and L.algo[0] in HYP:
+                    # rates of the restored iteration: the saved ones when it was a dynamic iteration, none (zero) when it was a
+                    # static one - a simulation placed on that iteration carries nothing from the steps made after it
+                    ev, ea = (v, a) if algo_saved in HYP else (0 * v, 0 * a)
+                    for nm_, g_, e_ in (("v", got[1], ev), ("a", got[2], ea)):
+                        if g_.shape == e_.shape:
+                            rec.close(g_ - e_, max(float(np.abs(e_).max()), float(np.abs(g_).max()) * 1e-3, 1e-9), 1e-12, "set_iter_rates",
+                                      f"Set_Iter({i}) (iteration saved under '{algo_saved}', current scheme '{L.algo[0]}'): {nm_} is not the "
+                                      "one of that iteration", **sig)
         elif name == "solve":
             if L.bc is None:
                 prev = name
